@@ -1938,7 +1938,7 @@ func ruleCtxNonNil(id string) func(*Checker) {
 					// events), not the caller's own
 					if _, isPrm := canon(a).(*ssa.Parameter); isPrm && !strings.HasSuffix(what, "Start") && !strings.HasSuffix(what, "Already") {
 						started := false
-												for _, c2 := range callsIn(outerOf(fn)) {
+						for _, c2 := range callsIn(outerOf(fn)) {
 							if c2.Common().StaticCallee() != nil || c2.Common().IsInvoke() {
 								continue
 							}
